@@ -134,6 +134,38 @@ def run_case(case):
                             add("linear_D", E, form, T, "rate matrix is not linear in D")
                     except Exception as e:
                         add("metamorphic_raises", E, form, T, f"{type(e).__name__}")
+    # ---- call histories on ONE instance (state kept between calls must not leak): all (D,T) words up to length 3
+    if edges:
+        menu = [(1.3, 273.15), (2.6, 273.15), (1.3, 310.0)]
+        Es = [np.array(e, dtype=float) for e in (list(itertools.islice(itertools.product(letters, repeat=n), 3))
+                                                 if not isinstance(letters[0], list) else [letters[0]])]
+        for E in Es[-2:]:
+            form = case["forms"][bits % len(case["forms"])]
+            for word in itertools.product(range(3), repeat=3):
+                sm, hm, V, S, h = build(n, edges, form)
+                keep = (sm.data.copy(), hm.data.copy(), V.copy(), E.copy())
+                obj = SQRA(energies=E, volumes=V, distances=hm, surfaces=sm)
+                for step, w in enumerate(word):
+                    Dw, Tw = menu[w]
+                    calls += 1
+                    try:
+                        Q = obj.get_rate_matrix(D=Dw, T=Tw).toarray()
+                    except Exception as e:
+                        add("reuse_raises", E, form, Tw, f"call {step + 1} on the same instance raised {type(e).__name__}")
+                        break
+                    X = oracle(n, edges, E, Tw, Dw, S, h, V)
+                    if not close(Q, X, 1e-9):
+                        if "instance_reuse" not in vs:
+                            c = {"n": n, "bits": bits, "edges": case["edges"], "letters": [list(E)], "Ts": [Tw],
+                                 "forms": [form], "word": list(word)}
+                            vs["instance_reuse"] = viol(
+                                f"C01|n={n}|pattern={bits}|instance_reuse|E={list(E)}|form={form}|calls={[menu[x] for x in word[:step + 1]]}",
+                                f"call {step + 1} of the sequence {[menu[x] for x in word[:step + 1]]} on one SQRA instance "
+                                "differs from the formula (state leaks between calls)", c, X.tolist(), Q.tolist())
+                        break
+                if not (np.array_equal(sm.data, keep[0]) and np.array_equal(hm.data, keep[1]) and np.array_equal(V, keep[2])
+                        and np.array_equal(E, keep[3])):
+                    add("mutates_input", E, form, 273.15, "get_rate_matrix modified its input arrays")
     return {"violations": list(vs.values()), "calls": calls, "nontrivial": len(edges) >= 1}
 
 
